@@ -31,13 +31,15 @@ Init == /\ prog \in {[cls |-> c, steps |-> "g", comp |-> 0, ucons |-> <<>>, lmis
                       lmimetric |-> 0, unsent_lmi |-> 0] : c \in Classes}
         /\ solves = <<>> /\ phase = "build" /\ epoch = 0 /\ sent = <<>> /\ native = <<>> /\ dualpos = <<>>
         /\ cache = 0 /\ nClassLmi = 0 /\ nPartRows = 0 /\ hist = <<>>
-NFeat == (IF prog.steps = "gg" THEN 1 ELSE 0) + prog.comp + Len(prog.ucons) + Len(prog.lmis) + (prog.metrics - 1)
+NFeat == (IF prog.steps = "g" THEN 0 ELSE 1) + prog.comp + Len(prog.ucons) + Len(prog.lmis) + (prog.metrics - 1)
          + (IF prog.part = 0 THEN 0 ELSE 1) + prog.lmimetric + prog.unsent_lmi
 CanAdd == phase = "build" /\ NFeat < MaxFeatures
 InSeq(s, x) == \E i \in 1..Len(s) : s[i] = x
 Feature ==
   /\ CanAdd
-  /\ \/ "steps" \in Allowed /\ prog.steps = "g" /\ prog' = [prog EXCEPT !.steps = "gg"]
+  /\ \/ "steps" \in Allowed /\ prog.steps = "g" /\ \E st \in {"gg", "gi"} \cup (IF prog.comp = 1 THEN {"gI"} ELSE {}) : prog' = [prog EXCEPT !.steps = st]
+        \* gi: an inexact gradient step (its side constraint is declared on the function by the step);
+        \* gI: the same step on a composite f + h built inline and not kept by the user
      \/ "comp" \in Allowed /\ prog.comp = 0 /\ prog.cls \in {1, 2, 3, 4, 11, 12} /\ prog' = [prog EXCEPT !.comp = 1]
      \/ "cons" \in Allowed /\ \E c \in ConsCodes : ~InSeq(prog.ucons, c) /\ (c = "ci" => prog.comp = 1) /\ prog' = [prog EXCEPT !.ucons = Append(@, c)]
      \/ "lmi" \in Allowed /\ \E c \in LmiCodes : Len(prog.lmis) < 2 /\ prog' = [prog EXCEPT !.lmis = Append(@, c)]
@@ -52,7 +54,7 @@ Sc(src) == [src |-> src, k |-> "sc", n |-> 1]
 Lm(src, n) == [src |-> src, k |-> "lmi", n |-> n]
 PepCons(p) == SelectSeq(p.ucons, LAMBDA c : c \in {"pi", "pe", "pg", "pm", "pd", "dup", "dupf", "se"})
 DupPep(p) == SelectSeq(p.ucons, LAMBDA c : c \in {"dup", "se"})      \* codes that put two rows on the problem
-FunCons(p) == SelectSeq(p.ucons, LAMBDA c : c \in {"fi", "ci", "dupf"})
+FunCons(p) == SelectSeq(p.ucons, LAMBDA c : c \in {"fi", "ci", "dupf"}) \o (IF p.steps \in {"gi", "gI"} THEN <<"step">> ELSE <<>>)
 PepLmis(p) == SelectSeq(p.lmis, LAMBDA c : c # "F2")
 FunLmis(p) == SelectSeq(p.lmis, LAMBDA c : c = "F2")
 ClassRows == 2        \* abstract: the number of class rows is decided by the class (C04), not here
